@@ -588,7 +588,8 @@ def symtab_problems(elf, syms, case):
                     bad["rustvs"] = f"{sym.name}: hidden through another entry and listed in a global:/local:* script, entry is bind={b} vis={v}"
                 elif in_href_domain(sym) and b != "l" and v != "h":
                     bad["hidden-ref"] = f"{sym.name}: a reference is hidden, entry is bind={b} vis={v}"
-                elif vis == "i" and b != "l":
+                # (a GLOBAL entry that carries the internal/hidden visibility is as acceptable as for hidden symbols)
+                elif vis == "i" and b != "l" and v not in ("i", "h"):
                     bad["internal"] = f"{sym.name}: most constraining visibility is internal, entry is bind={b} vis={v}"
                 elif b == w["bind"] and v == "d" and vis == "p" and w["vis"] == "d":
                     bad["merged-protected"] = f"{sym.name}: most constraining visibility is protected, entry says default"
